@@ -162,21 +162,34 @@ def coq_stage(prop):
         res.update(ok=False, broken=["no Properties/%s.v" % prop])
         return res
     vo = pfile + "o"
-    try:
-        os.remove(os.path.join(COQ, vo))
-    except FileNotFoundError:
-        pass
-    rc, out, dt = sh(["./build.sh", vo, "extraction/Extract.vo"], cwd=COQ, timeout=3000)
+    # a second statement file Properties/<prop>src.v (theorems about the regenerated code that build on the first)
+    pfile2 = "theories/Properties/%ssrc.v" % prop
+    has2 = os.path.exists(os.path.join(COQ, pfile2))
+    for f in [vo] + ([pfile2 + "o"] if has2 else []):
+        try:
+            os.remove(os.path.join(COQ, f))
+        except FileNotFoundError:
+            pass
+    # a proof that diverges on a changed definition must not hold the check up: the whole (incremental) build of the
+    # property's obligations is given 20 minutes (a cached build takes one or two)
+    env_b = dict(ENV, COQ_TIMEOUT=os.environ.get("COQ_TIMEOUT", "1200"))
+    rc, out, dt = sh(["./build.sh", vo] + ([pfile2 + "o"] if has2 else []) + ["extraction/Extract.vo"], cwd=COQ, timeout=3000, env=env_b)
+    if rc == 124:
+        out += "\nFile \"(build)\", line 0, characters 0-0:\nError: the build of the proof obligations did not finish within the time limit (a proof diverges on the current definitions)\n\n"
     res["log"] = out
     if stale:
         # relevant to this property iff one of its theorems reaches the constant through the
         # definition-level reference graph (.glob files); file-level dependencies when the build failed
         src0 = open(os.path.join(COQ, pfile)).read()
         thms0 = re.findall(r"^(?:Theorem|Lemma|Corollary)\s+(\w+)", src0, flags=re.M)
+        starts0 = [("QwtModel.Properties.%s" % prop, t) for t in thms0]
+        if has2:
+            src02 = open(os.path.join(COQ, pfile2)).read()
+            starts0 += [("QwtModel.Properties.%ssrc" % prop, t) for t in re.findall(r"^(?:Theorem|Lemma|Corollary)\s+(\w+)", src02, flags=re.M)]
         if rc == 0:
-            hit = glob_reaches(glob_graph(), [("QwtModel.Properties.%s" % prop, t) for t in thms0], set(stale))
+            hit = glob_reaches(glob_graph(), starts0, set(stale))
         else:
-            deps = coq_deps(pfile)
+            deps = sorted(set(coq_deps(pfile)) | (set(coq_deps(pfile2)) if has2 else set()))
             hit = set()
             for f in deps:
                 if f.endswith("Gen/Consts.v") or f.endswith("Proofs/ConstsOk.v"):
@@ -204,7 +217,7 @@ def coq_stage(prop):
                                              % (("%s:%s %s" % (m2.group(1), m2.group(2), " ".join(m2.group(3).split())[:200])) if m2 else tgt))
             else:
                 print("[check] stale T1 site(s) covered by T3: %s rebuilt, the regenerated function equals the hand model" % tgt)
-    src = open(os.path.join(COQ, pfile)).read()
+    src = open(os.path.join(COQ, pfile)).read() + ("\n" + open(os.path.join(COQ, pfile2)).read() if has2 else "")
     thms = re.findall(r"^(?:Theorem|Lemma|Corollary)\s+(\w+)", src, flags=re.M)
     res["theorems"] = thms
     res["obligations"] = len(thms)
@@ -358,6 +371,19 @@ def spec_matches(spec, impl):
         if len(ss) != len(is_):
             return False
         return all(spec_matches(s, i) for s, i in zip(ss, is_))
+    if spec.startswith("H") and impl.startswith("H") and ";" in impl:
+        # size_hint: lower <= remaining <= upper; an ExactSizeIterator (HE) reports the remaining count exactly
+        try:
+            exact = spec.startswith("HE")
+            r = int(spec[2:] if exact else spec[1:])
+            lo, hi = impl[1:].split(";")
+            lo = int(lo)
+            hi = None if hi == "inf" else int(hi)
+        except ValueError:
+            return False
+        if exact:
+            return lo == r and hi == r
+        return lo <= r and (hi is None or r <= hi)
     return impl in split_alts(spec)
 
 
